@@ -23,9 +23,17 @@ SPEC = dict(
              "(kernel evaluation) and proves, generically in any table satisfying the checked well-formedness conditions and for every "
              "well-typed value of every constructor with supported field types (all flag combinations, nesting, polymorphic objects, vectors, "
              "byte/text strings of every length): the modelled serialiser emits exactly the TL encoding, and the modelled parser returns the "
-             "same value and consumes exactly the serialised bytes, with auto-deserialisation off and - when no bytes/string content starts "
-             "with a registered id - on; the framing lemma holds for every string length; BlockIdExt byte/dict conversions are lossless and "
-             "equal ids hash equally. The hand-written model is tied to the code by differential testing on every covered constructor. The "
+             "same value and consumes exactly the serialised bytes with auto-deserialisation off; with it on the parser returns "
+             "normalize(v) - v with the content of every bytes/string field (untouchables of boxed objects excepted) run through the "
+             "library's re-parse loop - consumes exactly the serialised bytes and raises exactly when normalize(v) is undefined (a string "
+             "whose bytes start with a registered id); normalize(v) = v when no content starts with a registered id (decidable side "
+             "condition); a content that is one / several serialised well-typed objects becomes that object's own normal form / the "
+             "list of them. For tables without a cycle of bare references (checked for the bundled table: depth 5) recursion depth "
+             "(len/4+1)(R+2) suffices for any input, so the auto round trip holds with that explicit budget; for every table a parse "
+             "that returns keeps its result under any larger budget. The framing lemma holds "
+             "for every string length; BlockIdExt byte/dict conversions are lossless and equal ids hash equally. The hand-written "
+             "model is tied to the code by differential testing on every covered constructor, including contents built from nested "
+             "objects, lists, foreign tails and strings with a registered prefix. The "
              "framing arithmetic of bytes/string fields and the vector-length guard are additionally re-translated from tl/generator.py on every "
              "run (Generated/TlFraming.lean): the `<= 253` test, the 1-byte and FE+3-byte little-endian headers, the zero padding to a multiple "
              "of 4 on serialising (c14_src_frame_tests), and on parsing the FE test, the declared length, the header size and the skip over content "
@@ -35,8 +43,9 @@ SPEC = dict(
         level_note='Trusted: Lean kernel (propext, Classical.choice, Quot.sound), Spec/Tl.lean as the TL format, the table translator '
                    '(harness/translate/tl_table.py), the hand model Model/Tl.lean (tied by sampled correspondence, not by proof), Python '
                    'str.encode/decode = strict UTF-8, bytes.fromhex/hex inverse, tuple hash. Fuel = recursion depth: theorems hold for every '
-                   'sufficiently large depth budget. The general auto-deserialise statement (result = normalize v) is not proved, only the '
-                   'identity case under the stated side condition. Vector elements must occupy >= 1 byte (side condition in the spec).',
+                   'sufficiently large depth budget; normalize carries the same budget (its re-parses are the model parser on the content) and '
+                   'is shown to be budget-independent from tlFuel on for tables without bare cycles; Python\'s own recursion limit is not '
+                   'modelled. The vector rule of the spec asks for count <= encoded length; shown to follow from the element types for every bundled vector field.',
         technique='Lean 4 proof (hand model generic in a schema table regenerated from source) + differential correspondence with the library '
                   '+ source-regenerated framing arithmetic',
     ),
@@ -46,12 +55,14 @@ SPEC = dict(
     rule='for every covered constructor >= 3 type-directed random canonical values (boundary-biased ints, strings/bytes at lengths '
          '{0..4,252..257,65535 (thorough 2^24-1)} plus a sweep of every length 0..300, nested/polymorphic objects to depth 3, vectors of '
          '0/1/many, all flag combinations for <= 6 conditional fields, sampled above); each serialised by the library, compared with an '
-         'independent TL encoder, parsed back in both auto-deserialise modes, and run through the Lean model; plus nested-object-in-bytes '
-         'cases, damaged inputs (model vs library only) and BlockId/BlockIdExt helpers; distinct = distinct (constructor, value); '
+         'independent TL encoder, parsed back in both auto-deserialise modes, and run through the Lean model (serialize, deserialize in '
+         'both modes, normalize); plus nested-object-in-bytes cases, auto-shape cases (bytes contents built from 1..4 serialised objects, '
+         'foreign tails, empty, nesting to depth 3, with an independently computed expected result; strings starting with a registered '
+         'id must raise), damaged inputs (model vs library only) and BlockId/BlockIdExt helpers; distinct = distinct (constructor, value); '
          'non-trivial = the constructor has at least one field',
     trusted_base=['harness/translate/tl_table.py (table generator, replays the type tests of serialize_field/deserialize)',
                   'Spec/Tl.lean is the TL binary format', 'Model/Tl.lean mirrors generator.py/block.py by hand',
-                  'harness/translate/pyarith.py + arith.py/arith2.py and lean/TonVerif/PyBytes.lean (Python statements / bytes operations -> Lean) for the c14_src_* theorems',
+                  'harness/translate/pyarith.py + arith.py/arith2.py and lean/TonVerif/PyBytes.lean + PyBytes2.lean (Python statements / bytes operations -> Lean) for the c14_src_* theorems',
                   'harness/gen/tlvals.py: generators, independent encoder, token syntax'],
     assumptions=['correspondence is sampled differential testing', 'str.encode/decode are strict UTF-8 and inverse on valid strings',
                  'bytes.fromhex(x.hex()) == x', "Python's hash of a tuple is a function of the tuple's value"],
@@ -83,6 +94,9 @@ class Slow(BaseException):
 def _alarm(signum, frame):
     raise Slow()
 
+
+MODEL = object()    # expect_auto: no independent expectation (replays) - only compare the library with Lean's normalize / parser
+RAISES = object()   # expect_auto: the documented quirk - the auto round trip of this value raises (normalize = none)
 
 CAP = 4.0       # wall-clock cap per library call on damaged / adversarial input (guards the harness itself)
 
@@ -168,6 +182,45 @@ def check_value(ctx, W, B, c, v, tag, modes=(False, True), expect_auto=None, mod
         st, r = lib_deser(W, ser + b'', auto)
         want = v if (not auto or expect_auto is None) else expect_auto
         mode = 'auto' if auto else 'plain'
+        if auto and model and not big:
+            # c14_roundtrip_auto evaluated on the library: Lean's normalize(v) is what the library returns (both may raise)
+            def cb_norm(out, line, st=st, r=r, inp=inp):
+                if st != 'ok':
+                    ok = out == 'err'
+                else:
+                    ok = False
+                    if out.startswith('ok '):
+                        try:
+                            ok = r[1] == len(ser) and V.same(V.parse_tok(W, out[3:]), r[0])
+                        except Exception:
+                            ok = False
+                if not ok:
+                    ctx.corr_broken(f'tlnorm: model={out[:300]} library={str(r)[:300]} ctor={inp["ctor"]} request={line[:300]}')
+                    ctx.count('driver_disagreements')
+            B.add(f'tlnorm {c["idx"]} {tok}', cb_norm)
+        if want is MODEL:
+            if model and not big:
+                def cb_m(out, line, st=st, r=r, inp=inp):
+                    ok = out == 'err' if st != 'ok' else False
+                    if st == 'ok' and out.startswith('ok '):
+                        try:
+                            t, cn = out[3:].rsplit(' ', 1)
+                            ok = int(cn) == r[1] and V.same(V.parse_tok(W, t), r[0])
+                        except Exception:
+                            ok = False
+                    if not ok:
+                        ctx.corr_broken(f'tldeser-auto: model={out[:300]} library={str(r)[:300]} ctor={inp["ctor"]}')
+                B.add(f'tldeser {ser.hex()} 1', cb_m)
+            continue
+        if want is RAISES:
+            ctx.count('auto:raises-as-documented' if st != 'ok' else 'auto:documented-raise-did-not-happen')
+            if model and not big:
+                def cb_err(out, line, st=st, r=r, inp=inp):
+                    if (out == 'err') != (st != 'ok'):
+                        ctx.corr_broken(f'tldeser-auto(string with a registered prefix): model={out[:200]} library={str(r)[:200]} ctor={inp["ctor"]}')
+                        ctx.count('driver_disagreements')
+                B.add(f'tldeser {ser.hex()} 1', cb_err)
+            continue
         if st != 'ok':
             ctx.fail(f'deser-raised-{mode}:{c["name"]}', 'deserialize raised on the serialisation of a well-typed value', inp, r, want)
             continue
@@ -176,7 +229,8 @@ def check_value(ctx, W, B, c, v, tag, modes=(False, True), expect_auto=None, mod
             ctx.fail(f'consumed-{mode}:{c["name"]}', 'deserialize did not consume exactly the serialised bytes', inp, n, len(ser))
             continue
         if not V.same(val, want):
-            ctx.fail(f'roundtrip-{mode}:{c["name"]}', 'deserialize(serialize(v)) differs from v', inp, val, want)
+            ctx.fail(f'roundtrip-{mode}:{c["name"]}', 'deserialize(serialize(v)) differs from ' +
+                     ('v' if want is v else 'normalize(v) (contents built from known objects re-parsed as the loop should)'), inp, val, want)
             continue
         if model and not big:
             def cb_de(out, line, val=val, n=n, inp=inp, mode=mode):
@@ -302,6 +356,77 @@ def nested_in_bytes(ctx, W, B):
         check_value(ctx, W, B, host, v, 'nested-in-bytes', expect_auto=exp)
 
 
+def _untouchable(W, c, field):
+    return field in W.lib.untouchables.get(c['name'], ())
+
+
+def _bytes_fields(c, v):
+    return [a for a in c['args'] if a['ety'] == ('base', 'bytes') and not a['vec'] and a['field'] in v]
+
+
+def auto_obj(ctx, W, rng, c, depth, pools):
+    """a canonical value of c in which one bytes field (if any) holds a constructed content, and what the auto round
+    trip must turn it into (independent transcription of the re-parse loop for contents built from known parts)."""
+    v = V.gen_obj(W, rng, c, 0, {'depth': 1, 'big': False})
+    exp = dict(v)
+    fields = _bytes_fields(c, v)
+    if fields and depth > 0:
+        a = rng.choice(fields)
+        content, e = auto_content(ctx, W, rng, depth, pools)
+        v[a['field']] = content
+        exp[a['field']] = content if _untouchable(W, c, a['field']) else e
+    return v, exp
+
+
+def auto_content(ctx, W, rng, depth, pools):
+    kind = rng.choice(['one', 'one', 'many', 'tail', 'tail', 'plain', 'empty', 'deep'])
+    ctx.count('auto-shape:' + kind)
+    if kind == 'plain':
+        b = V.rand_bytes(W, rng, rng.randrange(1, 12))
+        return b, b
+    if kind == 'empty':
+        return b'', b''
+    k = {'one': 1, 'deep': 1, 'many': rng.choice([2, 3, 4]), 'tail': rng.choice([1, 2])}[kind]
+    parts, exps = [], []
+    for _ in range(k):
+        ic = rng.choice(pools[1] if kind == 'deep' else pools[0])
+        iv, iexp = auto_obj(ctx, W, rng, ic, depth - 1, pools)
+        parts.append(V.enc_obj(W, ic, iv, True))
+        exps.append(iexp)
+    if kind == 'tail':                                  # bytes of an unknown id after the objects stay bytes in the list
+        junk = V.rand_bytes(W, rng, rng.randrange(1, 9))
+        parts.append(junk)
+        exps.append(junk)
+    return b''.join(parts), (exps[0] if len(exps) == 1 else exps)
+
+
+def auto_shapes(ctx, W, B):
+    """the general auto-deserialise statement (c14_roundtrip_auto / c14_reparse_objects): contents that DO start with a
+    registered id - one object, several, objects followed by foreign bytes, nesting to depth 3 - and strings that start
+    with a registered id (the call raises)."""
+    rng = ctx.rng
+    hosts = [c for c in W.ctors if W.fully_typed(c) and W.canonical(c) and
+             any(a['ety'] == ('base', 'bytes') and not a['vec'] and a['cond'] is None for a in c['args'])]
+    pool = [c for c in W.ctors if W.covered(c) and W.canonical(c)]
+    pools = (pool, hosts)
+    for _ in range(ctx.n(300, 3000)):
+        host = rng.choice(hosts)
+        v, exp = auto_obj(ctx, W, rng, host, 3, pools)
+        check_value(ctx, W, B, host, v, 'auto-shape', expect_auto=exp)
+    # strings: ids whose four little-endian bytes are ASCII letters/digits
+    ascii_ids = [c['id'].to_bytes(4, 'little') for c in W.ctors if all(0x20 <= x < 0x7f for x in c['id'].to_bytes(4, 'little'))]
+    shosts = [c for c in W.ctors if W.fully_typed(c) and W.canonical(c) and
+              any(a['ety'] == ('base', 'string') and not a['vec'] and a['cond'] is None for a in c['args'])]
+    ctx.count('ascii_ids', len(ascii_ids))
+    if ascii_ids and shosts:
+        for _ in range(ctx.n(40, 400)):
+            host = rng.choice(shosts)
+            v = V.gen_obj(W, rng, host, 0, {'depth': 1, 'big': False})
+            a = rng.choice([a for a in host['args'] if a['ety'] == ('base', 'string') and not a['vec'] and a['cond'] is None])
+            v[a['field']] = rng.choice(ascii_ids).decode() + ''.join(rng.choice('abc 019') for _ in range(rng.randrange(0, 12)))
+            check_value(ctx, W, B, host, v, 'string-with-registered-prefix', expect_auto=RAISES)
+
+
 def check_blockid(ctx, W, B):
     from pytoniq_core.tl.block import BlockId, BlockIdExt
     rng = ctx.rng
@@ -419,6 +544,10 @@ def run(ctx):
     rng = ctx.rng
     if ctx.search and src_search(ctx, W, B):
         return
+    for d in W.meta.get('disagreements', []):
+        # the library's registry and the .tl text disagree about a constructor: the oracle below exercises it with values typed
+        # by the TEXT; if that finds no failing value the obligation (table = grammar) is still broken
+        ctx.corr_broken('registry vs TL grammar: ' + d)
     cov = [c for c in W.ctors if W.covered(c)]
     ctx.count('constructors_total', len(W.ctors))
     ctx.count('constructors_supported_field_types', sum(1 for c in W.ctors if W.supported(c)))
@@ -458,6 +587,7 @@ def run(ctx):
                 sers.append((ser, c))
     string_sweep(ctx, W, B)
     nested_in_bytes(ctx, W, B)
+    auto_shapes(ctx, W, B)
     for ser, c in sers:
         damaged(ctx, W, B, ser, c)
     check_blockid(ctx, W, B)
@@ -477,7 +607,8 @@ def replay(ctx, payload):
     inp = payload.get('input') or {}
     if isinstance(inp, dict) and 'ctor_index' in inp:
         v = _unjson(inp['value'])
-        check_value(ctx, W, B, W.ctors[inp['ctor_index']], v, 'replay')
+        shaped = inp.get('tag') in ('auto-shape', 'nested-in-bytes', 'string-with-registered-prefix')
+        check_value(ctx, W, B, W.ctors[inp['ctor_index']], v, 'replay', expect_auto=MODEL if shaped else None)
     elif isinstance(inp, dict) and 'decl' in inp:
         check_ids(ctx, W)
     elif isinstance(inp, dict) and 'workchain' in inp:
